@@ -183,7 +183,7 @@ func c14eGenAmt(r *kit.Rand, declaredOnly bool) c14eAmt {
 }
 
 func c14eGenCtr(r *kit.Rand, i int, barePct int, declaredOnly bool) c14eCtr {
-	ct := c14eCtr{name: fmt.Sprintf("c%d", i)}
+	ct := c14eCtr{name: c14eName(i)}
 	if r.Pct(barePct) {
 		return ct
 	}
@@ -201,6 +201,12 @@ func c14eGenCtr(r *kit.Rand, i int, barePct int, declaredOnly bool) c14eCtr {
 	return ct
 }
 
+// container names: DNS labels of different shapes (sort order, digit first, dashes); a function of the index so
+// that donor and main pod share names
+func c14eName(i int) string {
+	return []string{"c", "main-", "istio-proxy-", "a", "0", "zz-"}[i%6] + strconv.Itoa(i)
+}
+
 func c14eAnyDeclared(ctrs []c14eCtr) bool {
 	for _, ct := range ctrs {
 		if !ct.bare() {
@@ -216,19 +222,23 @@ func c14eRL(cpu, mem c14eAmt, native bool) corev1.ResourceList {
 	if !cpu.set && !mem.set {
 		return nil
 	}
+	// the same integral amount in the different notations a manifest can use (1k / 1000 / 1e3 / 1Ki ...)
+	fm := func(v int64) resource.Format {
+		return []resource.Format{resource.DecimalSI, resource.BinarySI, resource.DecimalExponent}[uint64(v)%3]
+	}
 	rl := corev1.ResourceList{}
 	if cpu.set {
 		if native {
 			rl[corev1.ResourceCPU] = *resource.NewMilliQuantity(cpu.v, resource.DecimalSI)
 		} else {
-			rl[c14eBatchCPU] = *resource.NewQuantity(cpu.v, resource.DecimalSI)
+			rl[c14eBatchCPU] = *resource.NewQuantity(cpu.v, fm(cpu.v))
 		}
 	}
 	if mem.set {
 		if native {
 			rl[corev1.ResourceMemory] = *resource.NewQuantity(mem.v, resource.BinarySI)
 		} else {
-			rl[c14eBatchMemory] = *resource.NewQuantity(mem.v, resource.BinarySI)
+			rl[c14eBatchMemory] = *resource.NewQuantity(mem.v, fm(mem.v+1))
 		}
 	}
 	return rl
@@ -522,15 +532,29 @@ func TestVerifC14WebhookToHook(t *testing.T) {
 		case 1:
 			marking = "profile" // native amounts, QoS BE + batch class injected by the profile
 		default:
-			marking = kit.Pick(r, []string{"label:LS", "label:LSR", "label:LSE", "none"})
+			marking = kit.Pick(r, []string{"label:LS", "label:LSR", "label:LSE", "label:SYSTEM", "none", "label:LS", "none", "label:be", "label:BestEffort", "label:"})
 		}
 		native := marking == "profile"
 		arrival := []string{"fresh", "annotation-of-other-spec", "annotation-of-same-spec", "annotation-then-edited-to-declare-nothing"}[r.Weighted(55, 15, 10, 20)]
 		n := r.Range(1, 5)
+		if r.Pct(10) {
+			n = r.Range(6, 10)
+		}
+		// feature gate DisableExtendedResourceSpec (8 %): the webhook leaves the annotation alone. Only fresh pods
+		// then (what a gate-off cluster's stale annotations mean under the gate is not decided by the statement).
+		gateOn := r.Pct(8)
+		if gateOn {
+			arrival = "fresh"
+			_ = utilfeature.DefaultMutableFeatureGate.Set(string(features.DisableExtendedResourceSpec) + "=true")
+			defer func() {
+				_ = utilfeature.DefaultMutableFeatureGate.Set(string(features.DisableExtendedResourceSpec) + "=false")
+			}()
+			c.Count("e2e_gate_disable_extended_resource_spec_on", 1)
+		}
 		var ctrs []c14eCtr
 		for i := 0; i < n; i++ {
 			if arrival == "annotation-then-edited-to-declare-nothing" {
-				ctrs = append(ctrs, c14eCtr{name: fmt.Sprintf("c%d", i)})
+				ctrs = append(ctrs, c14eCtr{name: c14eName(i)})
 			} else {
 				ctrs = append(ctrs, c14eGenCtr(r, i, 12, false))
 			}
@@ -548,6 +572,9 @@ func TestVerifC14WebhookToHook(t *testing.T) {
 			// the donor: same container names, other amounts, at least one container declares
 			var dctrs []c14eCtr
 			dn := r.Range(n, 5)
+			if dn < n {
+				dn = n
+			}
 			for i := 0; i < dn; i++ {
 				dctrs = append(dctrs, c14eGenCtr(r, i, 5, true))
 			}
@@ -575,7 +602,7 @@ func TestVerifC14WebhookToHook(t *testing.T) {
 		for i, ct := range ctrs {
 			ctrStr[i] = ct.String()
 		}
-		c.Op("pod marking=%s native=%v arrival=%s containers=%v arrives-with-annotation=%q", marking, native, arrival, ctrStr, pod0.Annotations[c14eAnnoKey])
+		c.Op("pod marking=%s native=%v arrival=%s gate-DisableExtendedResourceSpec=%v containers=%v arrives-with-annotation=%q", marking, native, arrival, gateOn, ctrStr, pod0.Annotations[c14eAnnoKey])
 
 		// ---- admit through the real webhook
 		pod1 := c14eAdmit(c, ctx, h, pod0)
@@ -641,6 +668,14 @@ func TestVerifC14WebhookToHook(t *testing.T) {
 			c.Evals(1 + len(final))
 
 			switch {
+			case gateOn && isBE && anyDeclared && tr == "proxy":
+				// gate on: no annotation is written, the CRI path cannot know the amounts (the reconciler path
+				// reads the pod spec and is checked). Counted.
+				if podTouched {
+					c.Count("e2e_gate_on_cri_path_touched", 1)
+				} else {
+					c.Count("e2e_gate_on_cri_path_untouched", 1)
+				}
 			case !isBE:
 				if podTouched {
 					c.Fail("C14/non-be/pod-touched", "%s: pod (qos label %q) is not best-effort but got %s", tr, pod1.Labels[c14eQoSKey], c14eRes(podGot))
@@ -714,7 +749,7 @@ func TestVerifC14WebhookToHook(t *testing.T) {
 				annoState = "containers"
 			}
 		}
-		c.Seen(len(final), strings.Join(pat, ","), marking, arrival, annoState)
+		c.Seen(len(final), strings.Join(pat, ","), marking, arrival, annoState, gateOn)
 		if c.K < 3 {
 			c.Sample(map[string]any{"marking": marking, "arrival": arrival, "containers": ctrStr, "admitted_annotation": finalAnno, "ops": c.Ops()})
 		}
